@@ -2,6 +2,7 @@ package main
 
 import (
 	"fmt"
+	"os"
 	"go/types"
 	"math/big"
 	"sort"
@@ -444,6 +445,19 @@ func init() {
 			e.H.stopOnTaint = args[0].(*Term).IsTrue()
 			return nil
 		},
+		"vDebugEval": func(e *Engine, fr *Frame, s *State, f *ssa.Function, args []Value, pos string) Value {
+			// prints the value of a term under the assignment given as "name=value,..." (debugging aid)
+			env := map[string]*big.Int{}
+			for _, kv := range strings.Split(constStr(args[1], "assignment"), ",") {
+				p := strings.SplitN(kv, "=", 2)
+				if len(p) == 2 {
+					env[p[0]] = bigFromString(p[1])
+				}
+			}
+			t := args[2].(*Term)
+			fmt.Fprintf(os.Stderr, "DEBUG %s = %s   (pc=%s)\n", constStr(args[0], "label"), e.st.Eval(t, env, map[int]*big.Int{}).String(), e.st.Eval(s.pc, env, map[int]*big.Int{}).String())
+			return nil
+		},
 		"vPrune": func(e *Engine, fr *Frame, s *State, f *ssa.Function, args []Value, pos string) Value {
 			e.H.pruneForks = args[0].(*Term).IsTrue()
 			return nil
@@ -665,6 +679,24 @@ func init() {
 		},
 		"vZ.IsConst": func(e *Engine, fr *Frame, s *State, f *ssa.Function, args []Value, pos string) Value {
 			return e.st.Bool(args[0].(*Term).IsConst())
+		},
+		"vZasAtom": func(e *Engine, fr *Frame, s *State, f *ssa.Function, args []Value, pos string) Value {
+			// normalises an integer term; if it is a single integer symbol (coefficient 1, no constant) returns it
+			t := args[0].(*Term)
+			if t.Op == OSym {
+				return Tuple{t, e.st.True()}
+			}
+			x := &b2i{st: e.st, ub: map[*Term]*big.Int{}, cache: map[int]*liftRes{}, vars: map[*Term]*Term{}, ok: true,
+				sideK: map[int]bool{}, monos: map[int]*Term{}, aiv: map[int][2]*big.Int{}, bcache: map[int]*Term{}, known: map[int][2]*big.Int{}, rhos: map[string]*Term{}, factors: map[int][]*Term{}}
+			l := x.liftInt(t)
+			if x.ok && l.c.Sign() == 0 && len(l.terms) == 1 {
+				for _, lt := range l.terms {
+					if lt.k.Cmp(bigOne) == 0 && lt.atom.Op == OSym {
+						return Tuple{lt.atom, e.st.True()}
+					}
+				}
+			}
+			return Tuple{t, e.st.False()}
 		},
 		"vZ.IsSym": func(e *Engine, fr *Frame, s *State, f *ssa.Function, args []Value, pos string) Value {
 			return e.st.Bool(args[0].(*Term).Op == OSym)
